@@ -32,11 +32,14 @@ def _drop_stale_vo():
     with open(os.path.join(lib.COQ, ".lock"), "w") as lock:
         fcntl.flock(lock, fcntl.LOCK_EX)
         try:
-            stale = False
+            stale, newest = False, 0.0
             for f in _CHAIN:
                 v, vo = os.path.join(lib.THEORIES, f + ".v"), os.path.join(lib.THEORIES, f + ".vo")
-                if not stale and (not os.path.exists(vo) or os.path.getmtime(v) > os.path.getmtime(vo)):
+                # stale: no .vo, source newer than it, or an earlier file of the chain was compiled after it
+                if not stale and (not os.path.exists(vo) or max(os.path.getmtime(v), newest) > os.path.getmtime(vo)):
                     stale = True
+                if not stale:
+                    newest = max(newest, os.path.getmtime(vo))
                 if stale and os.path.exists(vo):
                     os.unlink(vo)
         finally:
@@ -489,9 +492,7 @@ def get_cat() -> Cat:
 
 THEOREMS = ["C17_tables_ok", "C17_agrees", "C17_total", "C17_spelling_origin", "C17_spelling", "C17_spelling_union",
             "C17_abstract_unmapped", "C17_origin_concrete", "C17_stable",
-            "C17_refuted_alias_chain", "C17_refuted_alias_alias",
-            "C17_refuted_raw_generic", "C17_refuted_spelling_subscripted",
-            "C17_refuted_cache_spelling", "C17_refuted_union_by_name"]
+            "C17_refuted_spelling_subscripted", "C17_refuted_cache_spelling"]
 
 
 def local_findings():
